@@ -394,6 +394,13 @@ class Findings:
     def __init__(self) -> None:
         p = VERIF / 'known_findings.json'
         self.data = json.loads(p.read_text()) if p.exists() else {'findings': [], 'fixed': []}
+        # per-property files (same format), merged
+        dd = VERIF / 'known_findings.d'
+        if dd.is_dir():
+            for f in sorted(dd.glob('*.json')):
+                extra = json.loads(f.read_text())
+                self.data.setdefault('findings', []).extend(extra.get('findings', []))
+                self.data.setdefault('fixed', []).extend(extra.get('fixed', []))
 
     def lookup(self, prop: str, signature: str) -> T.Optional[T.Dict[str, str]]:
         for f in self.data.get('findings', []):
